@@ -243,9 +243,14 @@ def cases(tier, seed):
     # disparity needs several hops (l -> l-d -> l-2d)
     for i in range({'quick': 120, 'thorough': 2000}[tier]):
         yield {'kind': 'deep', 'seed': seed, 'idx': i}
+    if tier == 'thorough':
+        yield {'kind': 'suite'}      # the repository's own tests as a further workload, run under this check's monitors
 
 def run_case(rec, case):
     _state['case'] = case
+    if case['kind'] == 'suite':
+        from verif.suite import run_suite
+        rec.case(case, nontrivial=True); run_suite(rec, 'c04', case); return
     {'exhaustive': _exhaustive, 'random': _random, 'region': _region, 'deep': _deep}[case['kind']](rec, case)
 
 def _exhaustive(rec, case):
